@@ -174,6 +174,8 @@ def check(fx, rep, tier):
     rep.rule('R19.2', 'WriteHalf::write impls: every write starts at buf[progress..], accepted bytes advance every later write, Ok only when all is written')
     rep.rule('R19.3', 'no write progress is held only in the future of WriteHalf::write (cancel-safety of an abandoned send)')
     rep.rule('R19.4', 'inherited descriptors are made non-blocking (checked) before they are registered with the reactor')
+    rep.rule('R19.9', 'a transport read is a single forwarded read of the caller\'s slice; the read half keeps no buffer, counter or readiness step of its own')
+    rep.rule('R19.10', 'Listener::accept is cancel-safe: one await, the runtime\'s accept; nothing is awaited after a socket was accepted')
     rep.rule('R19.8', 'the transports never shut down the read direction of the socket the two halves share')
     rep.rule('R19.5', 'outbound framing (all rules of C02) holds')
     rep.rule('R19.6', 'inbound framing (all rules of C01) holds')
@@ -289,6 +291,65 @@ def check(fx, rep, tier):
                       'the inherited descriptor is registered with the reactor without a checked set_nonblocking(true) before it', det)
     if n4 < 2:
         rep.bad('R19.4', 'anchor', '-', 'expected TryFrom<OwnedFd> for Listener in both transport crates, found %d' % n4)
+    # ---- R19.9 a transport read is one read of the runtime's stream into the caller's slice, its count handed back unchanged.  The framing layer above
+    # owns all buffering, cursor state and cancel-safety (C01, C07, C17): a transport that loops, keeps bytes of its own, shortens the slice,
+    # waits for readiness first or post-processes the count breaks those arguments from below (lost read-ahead bytes after a cancelled receive,
+    # frames overtaken by newer socket data, an unbounded private buffer, a lost turn in the fair select)
+    READ_OK = {'read', 'into_future', 'new_unchecked', 'new', 'get_context', 'poll', 'map_err', 'deref', 'deref_mut', 'as_mut', 'as_ref', 'get_mut', 'get_ref',
+               'branch', 'from_residual', 'from', 'into', 'borrow', 'borrow_mut'}
+    n_rd = 0
+    for cn in ('zlink_tokio', 'zlink_smol'):
+        crate = fx.crate(cn, 'full')
+        for b in crate.bodies:
+            if not (b.is_coroutine and not b.in_test and b.impl_trait and 'socket::ReadHalf' in b.impl_trait and '::read::' in b.path):
+                continue
+            n_rd += 1
+            calls = [(blk, t) for blk, t in b.iter_terms('call') if not t.get('mac')]
+            other = sorted({t['callee'].get('name') or '?' for blk, t in calls if (t['callee'].get('name') or '?') not in READ_OK})
+            reads = [(blk, t) for blk, t in calls if t['callee'].get('name') == 'read']
+            whole = False
+            if len(reads) == 1 and len(reads[0][1]['args']) >= 2:
+                tr = b.trace(reads[0][1]['args'][1])
+                # the caller's slice, as it came in: an upvar / argument of the coroutine, not the result of an index / split / min
+                whole = tr.get('kind') in ('arg', 'place', 'local') and tr.get('kind') != 'call'
+            rep.check(not other and len(reads) == 1 and whole, 'R19.9', '%s|%s|read-is-one-forwarded-read' % (cn, b.path), b.where(),
+                      'ReadHalf::read is a single read of the stream into the caller\'s slice',
+                      'the transport\'s ReadHalf::read is not a single forwarded read of the caller\'s slice (%s): the framing layer\'s cursor, bound and cancel-safety arguments assume that the '
+                      'transport keeps no bytes or progress of its own and hands back exactly what one read of the socket delivered'
+                      % ('; '.join(x for x in ['other calls: %s' % ', '.join(other) if other else '', '%d read calls' % len(reads) if len(reads) != 1 else '',
+                                                'the slice handed to read is not the caller\'s slice as it came in' if (len(reads) == 1 and not whole) else ''] if x)))
+        # the read half holds nothing but the stream handle
+        for p_, a in crate.adts.items():
+            if p_.endswith('stream::ReadHalf'):
+                for v in a.get('variants') or []:
+                    extra = [f for f in (v.get('fields') or []) if re.search(r'Vec<|\[u8|BytesMut|Box<\[|VecDeque|usize|u64|u32|Option<', f.get('ty') or '')]
+                    rep.check(not extra, 'R19.9', '%s|%s|read-half-holds-only-the-stream' % (cn, p_), '%s:%s' % (a.get('file'), a.get('line')),
+                              'the read half has no buffer or counter of its own',
+                              'the transport read half keeps state of its own (%s): bytes or progress held there are invisible to the framing layer - they survive or die with the wrong object when a '
+                              'receive is cancelled, and they are not covered by the buffer limit' % ', '.join('%s: %s' % (f.get('name'), f.get('ty')) for f in extra))
+    if n_rd < 2:
+        rep.bad('R19.9', 'anchor', '-', 'expected ReadHalf::read impls in zlink-tokio and zlink-smol, found %d' % n_rd)
+    # ---- R19.10 Listener::accept is one accept of the runtime's listener: the server re-creates and drops the accept future on every turn of its loop, so
+    # whatever is awaited *after* the kernel handed over a socket (a yield, a handshake, a lock) is a point where an accepted connection is dropped unseen
+    ACCEPT_OK = {'accept', 'into_future', 'new_unchecked', 'new', 'get_context', 'poll', 'map', 'map_err', 'branch', 'from_residual', 'from', 'into', 'try_from', 'try_into',
+                 'deref', 'deref_mut', 'as_mut', 'as_ref', 'into_split', 'split', 'clone'}
+    n_acc = 0
+    for cn in ('zlink_tokio', 'zlink_smol'):
+        crate = fx.crate(cn, 'full')
+        for b in crate.bodies:
+            if not (b.is_coroutine and not b.in_test and b.impl_trait and b.impl_trait.endswith('Listener') and '::accept::' in b.path):
+                continue
+            n_acc += 1
+            polls = [blk for blk, t in b.iter_terms('call') if t['callee'].get('name') == 'poll' and not t.get('mac')]
+            other = sorted({t['callee'].get('name') or '?' for blk, t in b.iter_terms('call') if not t.get('mac') and (t['callee'].get('name') or '?') not in ACCEPT_OK
+                            and not (t['callee'].get('def') or '').startswith(('unix::', 'zlink_core::connection::', 'connection::'))})
+            rep.check(len(polls) == 1 and not [o for o in other if o in ('yield_now', 'sleep', 'lock', 'readable', 'writable', 'recv', 'send', 'tick')], 'R19.10',
+                      '%s|%s|accept-is-one-await' % (cn, b.path), b.where(),
+                      'Listener::accept awaits the runtime\'s accept and nothing else',
+                      'Listener::accept has %d suspension points%s: the server drops the pending accept future whenever another branch of its select wins - a connection the kernel already handed '
+                      'over is closed unseen if the future is dropped at a later await' % (len(polls), (' and calls ' + ', '.join(other)) if other else ''))
+    if n_acc < 2:
+        rep.bad('R19.10', 'anchor', '-', 'expected Listener::accept impls in zlink-tokio and zlink-smol, found %d' % n_acc)
     # ---- R19.8 the two halves share one descriptor: nothing in a transport crate may shut down the *read* direction of the socket
     # (shutdown(Write) on drop of the write half would be a legitimate half-close; Read / Both cuts off the peer's later messages)
     n_sd = 0
